@@ -294,9 +294,12 @@ class Case:
         self.mode = mode
         self.meta = meta or {}
         self.tables = None
+        self.pre = None          # a path parsed right before the case (ambient history), bytes
+        self.alias = False       # build equal sub-containers as one shared Go object
 
     def go_json(self):
         return json.dumps({'id': self.id, 'mode': self.mode, 'path_hex': hx(self.path),
+                           'pre_hex': hx(self.pre) if self.pre else '', 'alias': self.alias,
                            'filters': self.filters, 'aggs': self.aggs, 'acc': self.acc, 'nocfg': self.nocfg,
                            'docs': [doc_go(d) for d in self.docs]})
 
